@@ -387,6 +387,38 @@ pub fn jitter() {
     }
 }
 
+/// Schedule perturbation for code that runs while the caller holds an infoset lock (the two
+/// sampling sites): with [JITTER] set, sometimes yields or spins for a few microseconds so that
+/// the time spent inside the critical section varies. A thread may always be descheduled while it
+/// holds a lock, so this creates no interleaving the program cannot have; it makes contention on
+/// the lock likely instead of rare.
+pub fn jitter_held() {
+    if flags() & JITTER == 0 {
+        return;
+    }
+    let rand = JITTER_STATE.with(|cell| {
+        let mut state = cell.get();
+        if state == 0 {
+            state = mix(JITTER_SEED.load(Ordering::Relaxed) ^ mix(thread_index() as u64 + 1)) | 1;
+        }
+        state ^= state << 13;
+        state ^= state >> 7;
+        state ^= state << 17;
+        cell.set(state);
+        state
+    });
+    match rand % 16 {
+        0..=7 => {}
+        8..=11 => thread::yield_now(),
+        _ => {
+            let until = Instant::now() + Duration::from_nanos(500 + (rand >> 8) % 19_500);
+            while Instant::now() < until {
+                std::hint::spin_loop();
+            }
+        }
+    }
+}
+
 /// A node of the compact tree. `addr` is what [Event::Visit] reports in `node`.
 #[derive(Debug, Clone, PartialEq)]
 pub enum DumpNode {
